@@ -327,6 +327,45 @@ func c11ro(c *core.Ctx) {
 		}
 	}
 	c.OKd(R, "summary", "-", core.F("%d functions reachable from %d read-only entry points outside once closures and locked container methods", len(fs), len(roots)), core.F("%d of them write no persistent model field", nOK))
+	// no function hands out the address of a field of a persistent object: a store through such a
+	// pointer is invisible to the rule above
+	nAddr := 0
+	var all []*ssa.Function
+	for f := range c.P.AllFuncs {
+		if c.P.FuncInScope(f) && f.Blocks != nil {
+			all = append(all, f)
+		}
+	}
+	sort.Slice(all, func(i, j int) bool { return all[i].String() < all[j].String() })
+	for _, f := range all {
+		for _, b := range f.Blocks {
+			for _, in := range b.Instrs {
+				ret, ok := in.(*ssa.Return)
+				if !ok {
+					continue
+				}
+				for _, v := range ret.Results {
+					fa, ok := v.(*ssa.FieldAddr)
+					if !ok {
+						continue
+					}
+					pt, ok := fa.X.Type().Underlying().(*types.Pointer)
+					if !ok {
+						continue
+					}
+					tname := core.Rel(pt.Elem().String())
+					if !persistent[tname] {
+						continue
+					}
+					nAddr++
+					fname := absintFieldName(fa)
+					c.Bad(R, core.F("%s|addr %s.%s", core.FuncName(f), tname, fname), c.P.Pos(ret.Pos()), core.F("%s returns &%s.%s", core.FuncName(f), tname, fname),
+						"the address of a field of a persistent model object is handed out: whoever holds it writes shared model state outside the once/lock discipline (and outside the view of this rule)")
+				}
+			}
+		}
+	}
+	c.OKd(R, "addr", "-", core.F("%d functions scanned for `return &model.field`", len(all)), core.F("%d found", nAddr))
 	for _, r := range roots {
 		c.OK(R, "entry:"+core.FuncName(r), c.P.Pos(r.Pos()), "read-only entry "+core.FuncName(r)+" analysed")
 	}
